@@ -321,7 +321,10 @@ RF_OBJ = {"apiVersion": "verif.koreo.dev/v1", "kind": "Gadget", "metadata": {"na
           "spec": {"x": 6}}
 
 
-def run_rf(pre, post, crud, tracer):
+def run_rf(pre, post, crud, tracer, lookup="notNeeded"):
+    """`lookup`: notNeeded (apiConfig.plural given) | found | unknownKind — the two latter use a kind kr8s
+    does not know, no `plural`, and a cold plural cache, so the first thing `reconcile_krm_resource` does
+    after evaluating apiConfig is a discovery request (`api.lookup_kind`, logged as method LOOKUP)"""
     import copy
 
     import celpy
@@ -330,7 +333,14 @@ def run_rf(pre, post, crud, tracer):
     from koreo.resource_function.prepare import prepare_resource_function
     from koreo.resource_function.reconcile import reconcile_resource_function
 
+    from koreo.constants import PLURAL_LOOKUP_NEEDED
+
     spec = copy.deepcopy(RF_BASE)
+    plural, obj = "gadgets", RF_OBJ
+    if lookup != "notNeeded":
+        del spec["apiConfig"]["plural"]
+        spec["apiConfig"]["kind"] = "Widget"
+        plural, obj = "widgets", {**RF_OBJ, "kind": "Widget"}
     if crud == "okReadonly":
         spec["apiConfig"]["readonly"] = True
     if pre:
@@ -338,8 +348,11 @@ def run_rf(pre, post, crud, tracer):
     if post:
         spec["postconditions"] = spec_of(post)
     cl = Cluster()
+    cl.log_lookups = True
+    if lookup == "unknownKind":
+        cl.unknown_kinds = {"Widget"}
     if crud != "createRetry":
-        cl.put("verif.koreo.dev/v1", "gadgets", "ns", "str", RF_OBJ)
+        cl.put("verif.koreo.dev/v1", plural, "ns", "str", obj)
     inp = inputs_for(pre, post)      # preconditions read b[0..9], postconditions b[10..19]
 
     async def go():
@@ -355,12 +368,18 @@ def run_rf(pre, post, crud, tracer):
                              (fn.postconditions, "postconditions"), (fn.return_value, "return")]:
             if runner:
                 sites[id(runner)] = name
+        api_cls = fn.crud_config.resource_api
+        if lookup != "notNeeded":
+            # the kr8s class is shared between prepares and memoises the discovered plural: make it cold again
+            api_cls.plural = api_cls.endpoint = PLURAL_LOOKUP_NEEDED
         tracer.start(sites, cl)
         try:
             res = await reconcile_resource_function(cl, "wf.spec.steps.s", fn, ("ns", dict(ku.OWNER_REF)),
                                                     celpy.json_to_cel(inp))
         finally:
             trace = tracer.stop()
+            if lookup != "notNeeded":
+                api_cls.plural = api_cls.endpoint = PLURAL_LOOKUP_NEEDED
         o = obs_outcome(res.outcome, ku)
         o["trace"] = trace
         o["mutations"] = len(cl.mutations())
@@ -402,7 +421,7 @@ def agree(model, impl):
 
 
 BODY_VF = {"return": "ok", "null": "ok"}
-BODY_RF = {"return": "ok", "retry": "retry"}
+BODY_RF = {"return": "ok", "retry": "retry", "lookupFailed": "permFail"}
 
 
 class Impl:
@@ -423,7 +442,7 @@ class Impl:
             return run_unit(c["ps"], self.env_mod)
         if mode == "vf":
             return run_vf(c["ps"], self.tracer, c["ret"])
-        return run_rf(c["pre"], c["post"], c["crud"], self.tracer)
+        return run_rf(c["pre"], c["post"], c["crud"], self.tracer, c.get("lookup", "notNeeded"))
 
     def safe_run(self, mode, c):
         try:
@@ -461,6 +480,9 @@ class Impl:
         pre, post, trace = c["pre"], c["post"], got["trace"]
         e_pre = expected(pre)
         if pre and trace[:1] != ["preconditions"]:
+            if trace[:1] == ["api"]:
+                return (f"rf: the cluster was touched before the preconditions were evaluated ({trace[:3]}; "
+                        f"outcome {got['c']} {got.get('m')!r})")
             return f"rf: preconditions were not the first thing evaluated ({trace[:3]})"
         after_pre = trace[1:] if pre else trace
         if e_pre == "unconstrained":
@@ -475,6 +497,10 @@ class Impl:
             return None
         if "locals" not in after_pre or "api" not in after_pre:
             return f"rf: preconditions continue but the function did not proceed ({trace}, outcome {got['c']} {got.get('m')!r})"
+        if c.get("lookup") == "unknownKind":
+            if got["c"] != "permFail" or "postconditions" in trace or "return" in trace:
+                return f"rf: the kind is unknown to the cluster, yet outcome {got['c']} with trace {trace}"
+            return None
         if c["crud"] == "createRetry":
             if got["c"] != "retry" or "postconditions" in trace or "return" in trace:
                 return f"rf: create path gave {got['c']} with trace {trace}"
@@ -537,7 +563,8 @@ def run(tier: str) -> int:
         pre, s1 = gen_list(r, schema=True, cap=10) if where != "post" else ([], "none")
         post, s2 = gen_list(r, schema=True, base=10, cap=10) if where != "pre" else ([], "none")
         cases.append(("rf", {"pre": pre, "post": post, "shape": f"{s1}/{s2}",
-                             "crud": r.choice(["okReadonly", "okMatch", "okMatch", "createRetry"])}))
+                             "crud": r.choice(["okReadonly", "okMatch", "okMatch", "createRetry"]),
+                             "lookup": r.choice(["notNeeded", "notNeeded", "found", "found", "unknownKind"])}))
     exhaustive = 0
     if tier == "thorough":
         # every kind assignment × truth assignment for length ≤ 4 (ValueFunction), ≤ 3 (ResourceFunction pre / post)
@@ -552,7 +579,8 @@ def run(tier: str) -> int:
                     cases.append(("vf", {"ps": mk(0), "shape": "exhaustive", "ret": True}))
                     exhaustive += 1
                     if n <= 3:
-                        cases.append(("rf", {"pre": mk(0), "post": [], "shape": "exhaustive/none", "crud": "okMatch"}))
+                        cases.append(("rf", {"pre": mk(0), "post": [], "shape": "exhaustive/none", "crud": "okMatch",
+                                             "lookup": ["notNeeded", "found", "unknownKind"][exhaustive % 3]}))
                         cases.append(("rf", {"pre": [], "post": mk(10), "shape": "none/exhaustive", "crud": "okMatch"}))
                         exhaustive += 2
 
@@ -563,7 +591,8 @@ def run(tier: str) -> int:
         elif mode == "vf":
             reqs.append({"op": "vf", "pre": wire_of(c["ps"]), "ret": c["ret"]})
         else:
-            reqs.append({"op": "rf", "pre": wire_of(c["pre"]), "post": wire_of(c["post"]), "crud": c["crud"]})
+            reqs.append({"op": "rf", "pre": wire_of(c["pre"]), "post": wire_of(c["post"]), "crud": c["crud"],
+                         "lookup": c.get("lookup", "notNeeded")})
     try:
         answers = drv.ask(reqs)
     except Infra as e:
@@ -586,6 +615,8 @@ def run(tier: str) -> int:
                 if p["d"] in ("failed", "notInt"):
                     ck.count(f"delay:{p['d']}")
         ck.count(f"mode:{mode}")
+        if mode == "rf":
+            ck.count(f"plural-lookup:{c.get('lookup', 'notNeeded')}")
         ck.count(f"shape:{c['shape']}")
         ck.count(f"outcome:{got['c']}")
         nfalse = sum(1 for ps in lists for p in ps if p["a"] == "f")
